@@ -79,7 +79,9 @@ theorem expandIri_abs (c : Ctx) (hc : c.terms = []) (vocab docRel : Bool) {v : S
   have : (a :: rest) ≠ [cUnderscore] := by
     intro e; simp only [List.cons.injEq] at e; exact alpha_ne_underscore ha e.1
   simp only [this, if_false, hsch, if_true]
-  split <;> rfl
+  have hv : (if vocab = true then (none : Option TermDef) else none) = none := by split <;> rfl
+  rw [hv]
+  simp
 
 theorem expandIri_bnode (c : Ctx) (hc : c.terms = []) (vocab docRel : Bool) (l : Str) :
     expandIri c vocab docRel ([cUnderscore, cColon] ++ l) = .bnode l := by
@@ -98,5 +100,188 @@ theorem expandIri_bnode (c : Ctx) (hc : c.terms = []) (vocab docRel : Bool) (l :
   show expandIri c vocab docRel (cUnderscore :: cColon :: l) = .bnode l
   unfold expandIri
   simp [hk, hf, hterm, hcol, hsp]
+
+/-! ### evaluation of the expanded forms -/
+
+variable {β : Type}
+
+theorem term?_none (c : Ctx) (hc : c.terms = []) (k : Str) : c.term? k = none := by simp [Ctx.term?, hc]
+
+theorem expandIri_bnode' (c : Ctx) (hc : c.terms = []) (vocab docRel : Bool) (l : Str) :
+    expandIri c vocab docRel (cUnderscore :: cColon :: l) = .bnode l := expandIri_bnode c hc vocab docRel l
+
+/-- the `@id` of a well-formed subject / graph name / object node -/
+theorem evalId_flat (name : β → Str) (c : Ctx) (hc : c.terms = []) {t : Term β} (h : wfNode t = true) (n : Nat) :
+    evalId c (some (.str (flatId name t))) n = some (outTerm name t, n) := by
+  cases t with
+  | iri v =>
+    simp only [wfNode] at h
+    simp [evalId, flatId, expandIri_abs c hc false true h, nodeRef, h, outTerm, Term.map]
+  | bnode b =>
+    simp [evalId, flatId, bnodeId, expandIri_bnode' c hc false true (name b), nodeRef, outTerm, Term.map]
+  | lit l d g => simp [wfNode] at h
+
+theorem abs_ne_keyword {p k : Str} (h : absIri p = true) (hk : k.head? = some cAt) : p ≠ k := by
+  obtain ⟨a, rest, s, rfl, ha, _, _⟩ := absIri_shape h
+  intro e; subst e; simp only [List.head?_cons, Option.some.injEq] at hk; exact alpha_ne_at ha hk
+
+theorem classifyKey_abs (c : Ctx) (hc : c.terms = []) {p : Str} (h : absIri p = true) :
+    classifyKey c p = .prop p TermDef.plain := by
+  have hcolon : p.contains cColon = true := by
+    obtain ⟨a, rest, s, rfl, _, _, _⟩ := absIri_shape h
+    simp
+  obtain ⟨a, rest, s, hp, ha, _, _⟩ := absIri_shape h
+  have hkw : isKeyword p = false := by rw [hp]; exact isKeyword_alpha ha
+  have hkf : isKeywordForm p = false := by rw [hp]; exact isKeywordForm_alpha ha
+  unfold classifyKey
+  rw [if_neg (abs_ne_keyword h (by decide)), if_neg (abs_ne_keyword h (by decide)),
+    if_neg (abs_ne_keyword h (by decide)), if_neg (abs_ne_keyword h (by decide)), hkw, hkf]
+  have hmem : cColon ∈ p := by simpa using hcolon
+  simp [expandIri_abs c hc true false h, h, term?_none c hc, hmem]
+
+theorem classifyKey_id (c : Ctx) : classifyKey c kId = .id := by
+  unfold classifyKey; rw [if_neg (by decide), if_pos rfl]
+
+theorem classifyKey_graph (c : Ctx) : classifyKey c kGraph = .graph := by
+  unfold classifyKey
+  rw [if_neg (by decide), if_neg (by decide), if_neg (by decide), if_pos rfl]
+
+theorem nodeHead_flat (name : β → Str) (c : Ctx) (hc : c.terms = []) {t : Term β} (h : wfNode t = true)
+    (k : Str) (hk : k ≠ kContext) (v : Json) (n : Nat) :
+    nodeHead c false [(kId, .str (flatId name t)), (k, v)] n = some (c, outTerm name t, n, false) := by
+  have h1 : getKey kContext [(kId, Json.str (flatId name t)), (k, v)] = none := by
+    simp +decide [getKey, hk]
+  have h2 : getKey kId [(kId, Json.str (flatId name t)), (k, v)] = some (.str (flatId name t)) := by
+    simp [getKey]
+  simp [nodeHead, h1, h2, evalId_flat name c hc h n]
+
+theorem nodeHead_flat1 (name : β → Str) (c : Ctx) (hc : c.terms = []) {t : Term β} (h : wfNode t = true) (n : Nat) :
+    nodeHead c false [(kId, .str (flatId name t))] n = some (c, outTerm name t, n, false) := by
+  have h1 : getKey kContext [(kId, Json.str (flatId name t))] = none := by simp +decide [getKey]
+  have h2 : getKey kId [(kId, Json.str (flatId name t))] = some (.str (flatId name t)) := by simp [getKey]
+  simp [nodeHead, h1, h2, evalId_flat name c hc h n]
+
+theorem evalItem_flatObj (name : β → Str) (c : Ctx) (hc : c.terms = []) (g : Option T) (s : T) (p : Str)
+    {o : Term β} (h : wfObj o = true) (n : Nat) :
+    evalItem c TermDef.plain g s p (flatObj name o) n = some ([quad s p (outTerm name o) g], n) := by
+  cases o with
+  | iri v =>
+    simp only [wfObj] at h
+    have hh := nodeHead_flat1 name c hc (t := Term.iri v) (by simpa [wfNode] using h) n
+    simp only [flatId] at hh
+    rw [flatObj, evalItem.eq_4 _ _ _ _ _ _ _ _ (by intro xs e; cases e)]
+    rw [if_neg (by decide), if_neg (by decide), if_neg (by decide), hh]
+    simp [evalMembers, classifyKey_id, andThen]
+  | bnode b =>
+    have hh := nodeHead_flat1 name c hc (t := Term.bnode b) (by simp [wfNode]) n
+    simp only [flatId] at hh
+    rw [flatObj, evalItem.eq_4 _ _ _ _ _ _ _ _ (by intro xs e; cases e)]
+    rw [if_neg (by decide), if_neg (by decide), if_neg (by decide), hh]
+    simp [evalMembers, classifyKey_id, andThen]
+  | lit lex dt lang =>
+    cases lang with
+    | none =>
+      simp only [wfObj] at h
+      rw [flatObj, evalItem.eq_5 _ _ _ _ _ _ _ (by intro k xs e; cases e) (by intro k x e; cases e)]
+      simp +decide [hasKey, valueObjQuads, evalValueObj, getKey, expandIri_abs c hc true true h, h, outTerm, Term.map]
+    | some l =>
+      simp only [wfObj, Bool.and_eq_true, beq_iff_eq] at h
+      obtain ⟨rfl, hl⟩ := h
+      rw [flatObj, evalItem.eq_5 _ _ _ _ _ _ _ (by intro k xs e; cases e) (by intro k x e; cases e)]
+      simp +decide [hasKey, valueObjQuads, evalValueObj, getKey, hl, outTerm, Term.map]
+
+theorem evalMembers_flatNode (name : β → Str) (c : Ctx) (hc : c.terms = []) (g : Option T) {t : Triple β}
+    (hp : absIri t.p = true) (ho : wfObj t.o = true) (n : Nat) :
+    evalMembers c g (outTerm name t.s) false [(kId, .str (flatId name t.s)), (t.p, .arr [flatObj name t.o])] n =
+      some ([quad (outTerm name t.s) t.p (outTerm name t.o) g], n) := by
+  have hplain : (TermDef.plain.cont = Container.list) = False := by simp [TermDef.plain]
+  simp [evalMembers, classifyKey_id, classifyKey_abs c hc hp, andThen, evalItems, hplain,
+    evalItem_flatObj name c hc g (outTerm name t.s) t.p ho n]
+
+theorem evalNodes_flatNode (name : β → Str) (c : Ctx) (hc : c.terms = []) (g : Option T) {t : Triple β}
+    (hs : wfNode t.s = true) (hp : absIri t.p = true) (ho : wfObj t.o = true) (rest : List Json) (n : Nat) :
+    evalNodes c g (flatNode name t :: rest) n =
+      andThen (some ([quad (outTerm name t.s) t.p (outTerm name t.o) g], n)) (fun n1 => evalNodes c g rest n1) := by
+  rw [flatNode, evalNodes,
+    nodeHead_flat name c hc hs t.p (abs_ne_keyword hp (by decide)) _ n]
+  simp only [evalMembers_flatNode name c hc g hp ho n]
+
+/-- the quad of the result for a quad of the dataset -/
+def outQuad (name : β → Str) (q : DQuad β) : Q := DQuad.map (fun b => BN.orig (name b)) q
+
+theorem evalNodes_flatEntry (name : β → Str) (c : Ctx) (hc : c.terms = []) {q : DQuad β} (h : wfQuad q = true)
+    (rest : List Json) (n : Nat) :
+    evalNodes c none (flatEntry name q :: rest) n =
+      andThen (some ([outQuad name q], n)) (fun n1 => evalNodes c none rest n1) := by
+  obtain ⟨t, g⟩ := q
+  simp only [wfQuad, Bool.and_eq_true] at h
+  obtain ⟨⟨⟨hs, hp⟩, ho⟩, hg⟩ := h
+  cases g with
+  | none =>
+    simp only [flatEntry]
+    rw [evalNodes_flatNode name c hc none hs hp ho rest n]
+    rfl
+  | some gt =>
+    simp only [flatEntry]
+    rw [evalNodes, nodeHead_flat name c hc hg kGraph (by decide) _ n]
+    have h1 := evalNodes_flatNode name c hc (some (outTerm name gt)) hs hp ho [] n
+    simp only [evalNodes, andThen, List.append_nil] at h1
+    have h1' : evalNodes c (some (Term.map (fun b => BN.orig (name b)) gt)) [flatNode name t] n =
+        some ([quad (outTerm name t.s) t.p (outTerm name t.o) (some (outTerm name gt))], n) := h1
+    simp [evalMembers, classifyKey_id, classifyKey_graph, andThen, h1', outQuad, DQuad.map, Triple.map, quad, outTerm]
+
+theorem evalNodes_flat (name : β → Str) (c : Ctx) (hc : c.terms = []) :
+    ∀ (d : List (DQuad β)) (n : Nat), WFDataset d →
+      evalNodes c none (d.map (flatEntry name)) n = some (d.map (outQuad name), n) := by
+  intro d
+  induction d with
+  | nil => intro n _; simp [evalNodes]
+  | cons q d ih =>
+    intro n h
+    have hq : wfQuad q = true := h q (by simp)
+    have hd : WFDataset d := fun q' hq' => h q' (by simp [hq'])
+    simp only [List.map_cons]
+    rw [evalNodes_flatEntry name c hc hq, andThen, ih n hd]
+    simp
+
+/-! ### member names of the expanded forms are pairwise distinct -/
+
+theorem flatObj_wf (name : β → Str) (o : Term β) : (flatObj name o).wf = true := by
+  cases o with
+  | iri v => simp +decide [flatObj, Json.wf, wfMembers]
+  | bnode b => simp +decide [flatObj, Json.wf, wfMembers]
+  | lit lex dt lang => cases lang <;> simp +decide [flatObj, Json.wf, wfMembers]
+
+theorem flatNode_wf (name : β → Str) {t : Triple β} (hp : absIri t.p = true) : (flatNode name t).wf = true := by
+  have : kId ≠ t.p := fun e => abs_ne_keyword hp (by decide) e.symm
+  simp [flatNode, Json.wf, wfMembers, wfList, flatObj_wf, this]
+
+theorem flatEntry_wf (name : β → Str) {q : DQuad β} (h : wfQuad q = true) : (flatEntry name q).wf = true := by
+  obtain ⟨t, g⟩ := q
+  simp only [wfQuad, Bool.and_eq_true] at h
+  cases g with
+  | none => simpa [flatEntry] using flatNode_wf name h.1.1.2
+  | some gt =>
+    have := flatNode_wf name (t := t) h.1.1.2
+    simp +decide [flatEntry, Json.wf, wfMembers, wfList, this]
+
+theorem writeFlat_wf (name : β → Str) : ∀ (d : List (DQuad β)), WFDataset d → wfList (d.map (flatEntry name)) = true := by
+  intro d
+  induction d with
+  | nil => intro _; rfl
+  | cons q d ih =>
+    intro h
+    simp only [List.map_cons, wfList, Bool.and_eq_true]
+    exact ⟨flatEntry_wf name (h q (by simp)), ih (fun q' hq' => h q' (by simp [hq']))⟩
+
+/-- The fallback document denotes the dataset itself, blank nodes relabelled by `name`. -/
+theorem writeFlat_denotes (name : β → Str) (mode11 : Bool) (base : Option Str) (d : List (DQuad β)) (h : WFDataset d) :
+    toRdf mode11 base (writeFlat name d) = some (d.map (outQuad name)) := by
+  have hwf : (writeFlat name d).wf = true := by simpa [writeFlat, Json.wf] using writeFlat_wf name d h
+  unfold toRdf
+  rw [hwf]
+  simp only [Bool.not_true, Bool.false_eq_true, if_false, writeFlat]
+  rw [evalNodes_flat name (Ctx.initial mode11 base) rfl d 0 h]
+  rfl
 
 end RdfModel.Proofs.C10
